@@ -157,3 +157,29 @@ mut('C07_timeout_cancels_finished_too', EB,
 mut('C07_executing_announced_per_task_again', PO,
     "                self._tasks.update({task['uid']: task})\n                self._handle_task(task)",
     "                self._tasks.update({task['uid']: task})\n                self.advance_tasks(task, rps.AGENT_EXECUTING, publish=True, push=False)\n                self._handle_task(task)")
+
+COMP = 'utils/component.py'
+mut('C05_nonzero_exit_mapped_to_done', PO,
+    "                    task['exception_detail'] = 'exit code: %s' % exit_code\n                    task['target_state']     = rps.FAILED",
+    "                    task['exception_detail'] = 'exit code: %s' % exit_code\n                    task['target_state']     = rps.DONE")
+mut('C05_agent_failed_not_forwarded', COMP,
+    "    def advance(self, things, state=None, publish=True, push=False, qname=None,\n                      ts=None, fwd=True, prof=True):\n\n        things = ru.as_list(things)\n\n        # CANCELED and FAILED is handled on the client side",
+    "    def advance(self, things, state=None, publish=True, push=False, qname=None,\n                      ts=None, fwd=True, prof=True):\n\n        things = ru.as_list(things)\n\n        if state in [rps.FAILED, rps.CANCELED]:\n            fwd = False\n\n        # CANCELED and FAILED is handled on the client side")
+mut('C05_tmgr_output_final_state_not_set', 'tmgr/staging_output/default.py',
+    "            for task in no_staging_tasks:\n                task['state'] = task['target_state']\n",
+    "            for task in no_staging_tasks:\n                pass\n")
+mut('C05_agent_stagein_try_widened_to_bulk', 'agent/staging_input/default.py',
+    "            except Exception as e:\n                self._log.exception('staging error')\n                task['exception']        = repr(e)\n                task['exception_detail'] = '\\n'.join(ru.get_exception_trace())\n\n                self.advance(task, rps.FAILED)",
+    "            except Exception as e:\n                self._log.exception('staging error')\n                raise")
+mut('C05_executor_failure_without_record', PO,
+    "                task['exception']        = repr(e)\n                task['exception_detail'] = '\\n'.join(ru.get_exception_trace())\n\n                # can't rely on the executor base to free the task resources",
+    "                # can't rely on the executor base to free the task resources")
+mut('C05_tmgr_stagein_failure_passed_on', 'tmgr/staging_input/default.py',
+    "                    to_fail.append(task)\n",
+    "                    self._advance_tasks([task], state=rps.AGENT_STAGING_INPUT_PENDING, push=True)\n")
+mut('C05_canceled_final_reported_failed', COMP,
+    "            if 'state' in task:\n                self.advance(task, rps.CANCELED, publish=True, push=False)",
+    "            if 'state' in task:\n                self.advance(task, rps.FAILED, publish=True, push=False)")
+mut('C05_staging_output_skips_exit_code_check', 'agent/staging_output/default.py',
+    "                if task['target_state'] != rps.DONE \\",
+    "                if task['target_state'] == rps.DONE \\")
